@@ -459,6 +459,9 @@ func (fv *FuncVerifier) readVar(st *State, o *types.Var) Val {
 		return v
 	}
 	if fv.boxed[o] {
+		if _, isArr := o.Type().Underlying().(*types.Array); isArr {
+			return Val{T: fv.readBoxedArray(st, o), Ty: o.Type()}
+		}
 		h := fv.eng.sc.ptrHeap(o.Type())
 		v := "(select " + fv.heapOf(st, h) + " " + t + ")"
 		return Val{T: v, Ty: o.Type()}
